@@ -585,7 +585,42 @@ func allowedDeadlineGuard(c ssa.Value) bool {
 			return true
 		}
 	case *ssa.Phi:
-		return false
+		// a condition hoisted into a variable (x := a && b && c): every conjunct / disjunct is a documented test
+		if bt, ok := x.Type().Underlying().(*types.Basic); !ok || bt.Kind() != types.Bool {
+			return false
+		}
+		return allowedBoolPhi(x, 0)
 	}
 	return false
+}
+
+func allowedBoolPhi(ph *ssa.Phi, depth int) bool {
+	if depth > 3 {
+		return false
+	}
+	for i, e := range ph.Edges {
+		if _, isConst := e.(*ssa.Const); !isConst {
+			if inner, isPhi := e.(*ssa.Phi); isPhi {
+				if !allowedBoolPhi(inner, depth+1) {
+					return false
+				}
+			} else if c, neg := stripNot(e); !allowedDeadlineGuard(c) {
+				_ = neg
+				return false
+			}
+		}
+		// the test that selected this edge
+		pred := ph.Block().Preds[i]
+		if ifi, ok := pred.Instrs[len(pred.Instrs)-1].(*ssa.If); ok {
+			c, _ := stripNot(ifi.Cond)
+			if inner, isPhi := c.(*ssa.Phi); isPhi {
+				if !allowedBoolPhi(inner, depth+1) {
+					return false
+				}
+			} else if !allowedDeadlineGuard(c) {
+				return false
+			}
+		}
+	}
+	return true
 }
